@@ -149,3 +149,22 @@ package golang
 //@ loop #2
 //@ invariant [range] 0 <= _n && _n <= len(results)
 //@ invariant [nofail] forall j int :: 0 <= j && j < _n ==> results[j] != rules.FAILED
+
+// ---- construction: the object handed out has every collaborator the methods rely on ----
+//@ func (Parameter).apply
+//@ requires p != nil
+//@ modifies p.logLevel, p.monitor, p.rules, p.locker
+
+//@ func parseAndCheckParameters
+// (the guard in the loop tests the slice, not the option: a nil option would panic; every caller passes non-nil options)
+//@ requires [options] forall i int :: 0 <= i && i < len(params) ==> params[i] != nil
+//@ ensures [err] result1 != nil ==> result0 == nil
+//@ ensures [ok] result1 == nil ==> result0 != nil && result0.monitor != nil && result0.rules != nil && result0.locker != nil
+//@ loop #1
+//@ invariant [range] 0 <= _n && _n <= len(params)
+
+//@ func New
+//@ requires [options] forall i int :: 0 <= i && i < len(params) ==> params[i] != nil
+//@ modifies log
+//@ ensures [err] result1 != nil ==> result0 == nil
+//@ ensures [ok] result1 == nil ==> result0 != nil && result0.locker != nil && result0.rules != nil
